@@ -37,6 +37,20 @@ def join(a, b):
     return U
 
 
+class _NullReport:
+    def holds(self, *a, **k):
+        pass
+
+    def violates(self, *a, **k):
+        pass
+
+    def undecided(self, *a, **k):
+        pass
+
+    def note(self, *a, **k):
+        pass
+
+
 class Closed:
     def __init__(self, ctx, rep, f, cache_summary=None):
         self.ctx = ctx
@@ -95,6 +109,9 @@ class Closed:
             h = self._local_wrapper(e)
             if h is not None:
                 return self.tag(h[0], h[1](st))
+            s0 = self._nested_summary(e, st)
+            if s0 is not None:
+                return s0
             return U
         if isinstance(e, ast.Subscript):
             if u(e.value).endswith('delta'):
@@ -136,6 +153,35 @@ class Closed:
             return st2
         return body[0].value, env
 
+    def _nested_summary(self, e, st, depth=0):
+        """tag of the value a nested multi-statement helper returns, analysed with its parameters bound to the tags of the
+        arguments and its free variables to their tags at the call (the helper is a closure of this function)"""
+        if not (isinstance(e, ast.Call) and isinstance(e.func, ast.Name) and e.func.id in self.f.nested) or e.keywords or getattr(self, '_depth', 0) > 2:
+            return None
+        g = self.f.nested[e.func.id]
+        ps = list(g.params)
+        if len(ps) != len(e.args) or any(isinstance(a, ast.Starred) for a in e.args):
+            return None
+        memo = self.__dict__.setdefault('_nested_memo', {})
+        key = (g.qualname, tuple(repr(self.tag(a, st)) for a in e.args), tuple(sorted((k, repr(v)) for k, v in st.items() if isinstance(k, str))))
+        if key in memo:
+            return memo[key]
+        memo[key] = U       # recursion guard
+        sub = Closed(self.ctx, _NullReport(), g, cache_summary=self.cache_summary)
+        sub._depth = getattr(self, '_depth', 0) + 1
+        sub.init = dict(st)
+        for p, a in zip(ps, e.args):
+            sub.init[p] = self.tag(a, st)
+        sub.run()
+        out = None
+        for n in walk_no_nested(g.node):
+            if isinstance(n, ast.Return) and n.value is not None:
+                nid = sub.cfg.n_of(n) if hasattr(sub.cfg, 'n_of') else None
+                stn = sub.states.get(nid, {}) if nid is not None else {}
+                out = join(out, sub.tag(n.value, stn))
+        memo[key] = out if out is not None else U
+        return memo[key]
+
     def _comp_env(self, comp, st):
         env = dict(st)
         for g in comp.generators:
@@ -147,7 +193,7 @@ class Closed:
     # -- dataflow -------------------------------------------------------------------------------------------------------
     def run(self):
         cfg = self.cfg
-        init = {}
+        init = dict(getattr(self, 'init', {}) or {})
         states = {cfg.entry: init}
         work = [cfg.entry]
         it = 0
@@ -209,6 +255,9 @@ class Closed:
                         st[tg.id] = LISTC
                     elif isinstance(s.value, ast.DictComp) and len(s.value.generators) == 1 and self.tag(s.value.value, self._comp_env(s.value, st)) == C:
                         st[tg.id] = MAPC
+                    elif isinstance(s.value, ast.DictComp) and len(s.value.generators) == 1 and isinstance(s.value.key, ast.Name) \
+                            and self.tag(s.value.key, self._comp_env(s.value, st)) == ('elem', C):
+                        st[tg.id] = KEYSC       # {r: {''} for r in <closed set>}
                     else:
                         st[tg.id] = t
                 elif isinstance(tg, ast.Tuple) and isinstance(t, tuple) and t[0] == 'tuple':
@@ -225,7 +274,7 @@ class Closed:
                         st[m] = MAPC
                     elif isinstance(keytag, tuple) and keytag[0] == 'elem' and keytag[1] == C and cur in ('EMPTYMAP', KEYSC):
                         st[m] = KEYSC
-                    elif cur == 'EMPTYMAP':
+                    elif cur in ('EMPTYMAP', KEYSC):
                         st[m] = U
             return
         if isinstance(s, ast.AugAssign) and node.kind == 'stmt':
@@ -240,7 +289,19 @@ class Closed:
                 cur = st.get(m, U)
                 if isinstance(keytag, tuple) and keytag[0] == 'elem' and keytag[1] == C and cur in ('EMPTYMAP', KEYSC):
                     st[m] = KEYSC
+                elif cur in ('EMPTYMAP', KEYSC):
+                    st[m] = U
             return
+        if isinstance(s, ast.Expr) and isinstance(s.value, ast.Call) and isinstance(s.value.func, ast.Attribute):
+            # W1.setdefault(r1, set()).update(..) / W1.setdefault(r1, set()): a key enters the map
+            sd = s.value if s.value.func.attr == 'setdefault' else s.value.func.value
+            if isinstance(sd, ast.Call) and isinstance(sd.func, ast.Attribute) and sd.func.attr == 'setdefault' and isinstance(sd.func.value, ast.Name) and sd.args:
+                m = sd.func.value.id
+                cur = st.get(m, U)
+                keytag = self.tag(sd.args[0], st) if isinstance(sd.args[0], ast.Name) else U
+                if cur in ('EMPTYMAP', KEYSC):
+                    st[m] = KEYSC if keytag == ('elem', C) else U
+                return
         if isinstance(s, ast.Expr) and isinstance(s.value, ast.Call) and isinstance(s.value.func, ast.Attribute) and isinstance(s.value.func.value, ast.Name):
             m = s.value.func.value.id
             if s.value.func.attr == 'update' and s.value.args and st.get(m, U) in (C, R):
@@ -299,6 +360,31 @@ class Closed:
     def check(self):
         self.run()
         n = 0
+        # the requirement sites inside nested multi-statement helpers, analysed with the tags of their call sites (joined)
+        if getattr(self, '_depth', 0) <= 2:
+            calls_of = {}
+            for e in walk_no_nested(self.f.node):
+                if isinstance(e, ast.Call) and isinstance(e.func, ast.Name) and e.func.id in self.f.nested and not e.keywords and self._local_wrapper(e) is None:
+                    g = self.f.nested[e.func.id]
+                    if len(g.params) != len(e.args) or any(isinstance(a, ast.Starred) for a in e.args):
+                        continue
+                    st, nid = self.state_at(e)
+                    init = dict(st)
+                    for p, a in zip(g.params, e.args):
+                        init[p] = self.tag(a, st)
+                    prev = calls_of.get(g.name)
+                    if prev is None:
+                        calls_of[g.name] = (g, init)
+                    else:
+                        merged = {}
+                        for k in set(prev[1]) | set(init):
+                            merged[k] = join(prev[1].get(k), init.get(k)) if (k in prev[1] and k in init) else U
+                        calls_of[g.name] = (g, merged)
+            for name, (g, init) in sorted(calls_of.items()):
+                sub = Closed(self.ctx, self.rep, g, cache_summary=self.cache_summary)
+                sub._depth = getattr(self, '_depth', 0) + 1
+                sub.init = init
+                n += sub.check()
         for e in walk_no_nested(self.f.node):
             # (i) acceptance decisions
             if isinstance(e, ast.Call) and isinstance(e.func, ast.Attribute) and e.func.attr == 'isdisjoint' and e.args and self._is_F(e.args[0]):
@@ -492,28 +578,54 @@ def _is_namer(ctx, f, e):
 
 def check_subset_names(ctx, rep, f):
     """(iii) nfa_to_dfa: every subset that is named, enqueued or tested against F is closed.  The namer is recognised by
-    what it does (it prints the subset with print_state_set), the worklist by its loop (emptiness test + pop)."""
+    what it does (it prints the subset with print_state_set), the worklist by its loop (emptiness test + pop).  Sites
+    inside nested helpers (def visit(R): label = state(R); ...; todo.append(R)) are judged with the tags of their callers."""
     from .work import find_worklist_loops
+    worklists = {wl.wl for wl in find_worklist_loops(ctx, f)} or {'todo'}
+
+    def sites(a, g, depth):
+        n = 0
+        for e in walk_no_nested(g.node):
+            if _is_namer(ctx, g, e) and not any(_is_namer(ctx, g, x) for x in ast.walk(e.args[0]) if x is not e):
+                st, nid = a.state_at(e)
+                a.require('iii', e, a.tag(e.args[0], st), 'subset `{}` becomes a DFA state name'.format(u(e.args[0])))
+                n += 1
+            if isinstance(e, ast.Call) and isinstance(e.func, ast.Attribute) and e.func.attr in ('append', 'add') and u(e.func.value) in worklists and e.args:
+                st, nid = a.state_at(e)
+                arg = e.args[0]
+                parts = [arg]
+                if isinstance(arg, ast.Tuple):
+                    # (name, subset) pairs: the subsets are the components with a closedness tag
+                    parts = [x for x in arg.elts if a.tag(x, st) in (C, R)] or [x for x in arg.elts if not _is_namer(ctx, g, x)]
+                for x in parts:
+                    a.require('iii', e if len(parts) == 1 else x, a.tag(x, st), 'subset `{}` is enqueued for expansion'.format(u(x)))
+                    n += 1
+        if depth < 2:
+            calls_of = {}
+            for e in walk_no_nested(g.node):
+                if isinstance(e, ast.Call) and isinstance(e.func, ast.Name) and e.func.id in g.nested and not e.keywords and a._local_wrapper(e) is None:
+                    h = g.nested[e.func.id]
+                    if len(h.params) != len(e.args) or any(isinstance(x, ast.Starred) for x in e.args):
+                        continue
+                    st, nid = a.state_at(e)
+                    init = dict(st)
+                    for p, x in zip(h.params, e.args):
+                        init[p] = a.tag(x, st)
+                    prev = calls_of.get(h.name)
+                    if prev is None:
+                        calls_of[h.name] = (h, init)
+                    else:
+                        calls_of[h.name] = (h, {k: (join(prev[1].get(k), init.get(k)) if (k in prev[1] and k in init) else U) for k in set(prev[1]) | set(init)})
+            for name, (h, init) in sorted(calls_of.items()):
+                sub = Closed(ctx, rep, h, cache_summary=a.cache_summary)
+                sub._depth = depth + 1
+                sub.init = init
+                sub.run()
+                n += sites(sub, h, depth + 1)
+        return n
     a = Closed(ctx, rep, f)
     a.run()
-    n = 0
-    worklists = {wl.wl for wl in find_worklist_loops(ctx, f)} or {'todo'}
-    for e in walk_no_nested(f.node):
-        if _is_namer(ctx, f, e) and not any(_is_namer(ctx, f, x) for x in ast.walk(e.args[0]) if x is not e):
-            st, nid = a.state_at(e)
-            a.require('iii', e, a.tag(e.args[0], st), 'subset `{}` becomes a DFA state name'.format(u(e.args[0])))
-            n += 1
-        if isinstance(e, ast.Call) and isinstance(e.func, ast.Attribute) and e.func.attr in ('append', 'add') and u(e.func.value) in worklists and e.args:
-            st, nid = a.state_at(e)
-            arg = e.args[0]
-            parts = [arg]
-            if isinstance(arg, ast.Tuple):
-                # (name, subset) pairs: the subsets are the components with a closedness tag
-                parts = [x for x in arg.elts if a.tag(x, st) in (C, R)] or [x for x in arg.elts if not _is_namer(ctx, f, x)]
-            for x in parts:
-                a.require('iii', e if len(parts) == 1 else x, a.tag(x, st), 'subset `{}` is enqueued for expansion'.format(u(x)))
-                n += 1
-    return n
+    return sites(a, f, 0)
 
 
 def check_function(ctx, rep, f, cache=None):
